@@ -34,6 +34,10 @@ class ConcreteCtx:
     def hashval(self, name, m, lo=0, hi=2 ** 64 - 1):
         return int(self._get(name, lo))
 
+    @staticmethod
+    def compose(q, m, r):
+        return q * m + r
+
     def bits(self, name, w):
         return int(self._get(name, 0))
 
